@@ -310,10 +310,27 @@ def _tr(s):
 
 
 def _rgb(s):
-    m = re.search(r"rgb\((\d+), (\d+), (\d+)\)", s)
+    m = re.search(r"rgb\(\s*(\d+)\s*,\s*(\d+)\s*,\s*(\d+)\s*\)", s)
     if not m:
         raise HarnessError("cannot parse colour %r" % s)
     return tuple(int(x) for x in m.groups())
+
+
+def _style(s):
+    """CSS declarations of a style attribute as a dict (order and whitespace are not part of the picture)"""
+    out = {}
+    for decl in (s or "").split(";"):
+        if ":" in decl:
+            k, v = decl.split(":", 1)
+            out[k.strip()] = v.strip()
+    return out
+
+
+def _style_rgb(s, prop):
+    v = _style(s).get(prop)
+    if v is None or v == "none":
+        return None
+    return _rgb(v)
 
 
 def parse_path(d):
@@ -366,23 +383,20 @@ def parse_svg(doc):
         ax = main.find("./g[@class='axis-layer']")
         out["ticks"] = None if ax is None else [(_tr(t.get("transform")), t.find("text").text or "") for t in ax]
         ll = main.find("./g[@class='link-layer']")
-        out["links"] = [(parse_path(p.get("d")), _rgb(p.get("style"))) for p in (ll if ll is not None else [])]
+        out["links"] = [(parse_path(p.get("d")), _style_rgb(p.get("style"), "stroke")) for p in (ll if ll is not None else [])]
         labs = []
         lay = main.find("./g[@class='label-layer']")
         for g in (lay if lay is not None else []):
             r = g.find("rect")
             t = g.find("text")
             stl = r.get("style")
-            fill = _rgb(stl.split(";")[0])
-            border = None
-            m = re.search(r"stroke:(rgb\([^)]*\))", stl)
-            if m:
-                border = _rgb(m.group(1))
+            fill = _style_rgb(stl, "fill")
+            border = _style_rgb(stl, "stroke")
             labs.append(dict(origin=_tr(g.get("transform")) if g.get("transform") else (0.0, 0.0), w=float(r.get("width")), h=float(r.get("height")), fill=fill, border=border,
-                             text=None if t is None else (t.text or ""), textcolor=None if t is None else _rgb(t.get("style"))))
+                             text=None if t is None else (t.text or ""), textcolor=None if t is None else _style_rgb(t.get("style"), "fill")))
         out["labels"] = labs
         dl = main.find("./g[@class='dot-layer']")
-        out["dots"] = [((float(c.get("cx", "0")), float(c.get("cy", "0"))), float(c.get("r")), _rgb(c.get("style"))) for c in (dl if dl is not None else [])]
+        out["dots"] = [((float(c.get("cx", "0")), float(c.get("cy", "0"))), float(c.get("r")), _style_rgb(c.get("style"), "fill")) for c in (dl if dl is not None else [])]
         return out
     except (HarnessError, Violation):
         raise
